@@ -505,7 +505,7 @@ mod archives {
     const META: usize = 32;           // RrdpObjectMeta::SIZE
     const FILE_HDR: usize = 30;       // magic (6) + hash key (16) + bucket count (8)
     /// The worker refuses single allocations above this (recorded first); far above the oracle's bound.
-    const ALLOC_CAP: usize = 64 << 20;
+    const ALLOC_CAP: usize = 16 << 20;
     /// `objects()` of a file of a few KiB that yields this many items does not end.
     const ITER_CAP: u64 = 200_000;
     const ABSENT: &str = "rsync://example.net/repo/ca/never-published.roa";
@@ -966,7 +966,8 @@ mod archives {
     static AWORKER: Mutex<Option<AWorker>> = Mutex::new(None);
 
     fn spawn() -> AWorker {
-        let mut child = Command::new(std::env::current_exe().unwrap()).arg("aworker")
+        // no backtrace on abort: symbolising one costs seconds of CPU time, which the watchdog would take for a hang
+        let mut child = Command::new(std::env::current_exe().unwrap()).arg("aworker").env("RUST_BACKTRACE", "0")
             .stdin(Stdio::piped()).stdout(Stdio::piped()).stderr(Stdio::piped()).spawn().expect("spawn worker");
         let stdin = child.stdin.take().unwrap();
         let out = child.stdout.take().unwrap();
@@ -979,29 +980,23 @@ mod archives {
         AWorker { child, stdin, rx }
     }
 
-    /// CPU time (user + system) the process has used so far, from /proc/<pid>/stat.
+    /// User CPU time the process has used so far, from /proc/<pid>/stat (system time is left out: under memory
+    /// pressure the kernel charges its reclaim work to whoever faults a page in).
     fn cpu_seconds(pid: u32) -> Option<f64> {
         let s = std::fs::read_to_string(format!("/proc/{}/stat", pid)).ok()?;
         let rest = &s[s.rfind(')')? + 1..];
         let f: Vec<&str> = rest.split_whitespace().collect();
-        Some((f.get(11)?.parse::<u64>().ok()? + f.get(12)?.parse::<u64>().ok()?) as f64 / 100.0)
+        Some(f.get(11)?.parse::<u64>().ok()? as f64 / 100.0)
     }
 
-    pub fn run_case(input: &Value) -> CaseOut {
-        let names: Vec<String> = input["names"].as_array().unwrap().iter().map(|s| s.as_str().unwrap().to_string()).collect();
-        let data = unrle(&input["bytes"]);
-        let ops = ops_for(&names);
-        // A case needs milliseconds of CPU time.  The worker is declared hanging when it has burnt C27_CASE_CPU
-        // seconds of CPU time on one case (independent of the load of the machine), or after C27_CASE_TIMEOUT
-        // seconds of wall-clock time.
-        let cpu_limit: f64 = std::env::var("C27_CASE_CPU").ok().and_then(|s| s.parse().ok()).unwrap_or(1.0);
-        let secs = std::env::var("C27_CASE_TIMEOUT").ok().and_then(|s| s.parse().ok()).unwrap_or(180);
+    /// Sends one case to the worker and collects its answers: (answers, end line, "" | "timeout" | "died", how it went away).
+    fn attempt(names: &[String], bytes: &Value, cpu_limit: f64, secs: u64) -> (Vec<Value>, Option<Value>, &'static str, Value) {
         let deadline = Instant::now() + Duration::from_secs(secs);
         let mut guard = AWORKER.lock().unwrap();
         if guard.is_none() { *guard = Some(spawn()); }
         let w = guard.as_mut().unwrap();
         let cpu0 = cpu_seconds(w.child.id());
-        let sent = writeln!(w.stdin, "{}", json!({"names": names, "bytes": input["bytes"]})).and_then(|_| w.stdin.flush()).is_ok();
+        let sent = writeln!(w.stdin, "{}", json!({"names": names, "bytes": bytes})).and_then(|_| w.stdin.flush()).is_ok();
         let mut answers: Vec<Value> = Vec::new();
         let mut end: Option<Value> = None;
         let mut how = if sent { "" } else { "died" };
@@ -1029,10 +1024,26 @@ mod archives {
             let mut err = String::new();
             if let Some(mut e) = w.child.stderr.take() { let _ = e.read_to_string(&mut err); }
             let err = err.trim().lines().find(|l| !l.trim().is_empty()).unwrap_or("").to_string();
-            death = json!({"how": if how == "timeout" { format!("no answer after {} s of CPU time / {} s, killed", cpu_limit, secs) } else { "process died".to_string() },
+            death = json!({"how": if how == "timeout" { format!("no answer after {} s of user CPU time (or {} s), killed; twice", cpu_limit, secs) } else { "process died".to_string() },
                            "status": status, "stderr": err});
         }
-        drop(guard);
+        (answers, end, how, death)
+    }
+
+    pub fn run_case(input: &Value) -> CaseOut {
+        let names: Vec<String> = input["names"].as_array().unwrap().iter().map(|s| s.as_str().unwrap().to_string()).collect();
+        let data = unrle(&input["bytes"]);
+        let ops = ops_for(&names);
+        // A case needs milliseconds of CPU time.  The worker is declared hanging when it has burnt C27_CASE_CPU
+        // seconds of user CPU time on one case (independent of the load of the machine), or after C27_CASE_TIMEOUT
+        // seconds of wall-clock time -- and does so again, with twice the budget, in a fresh worker.
+        let cpu_limit: f64 = std::env::var("C27_CASE_CPU").ok().and_then(|s| s.parse().ok()).unwrap_or(1.0);
+        let secs: u64 = std::env::var("C27_CASE_TIMEOUT").ok().and_then(|s| s.parse().ok()).unwrap_or(180);
+        let (mut answers, mut end, mut how, mut death) = attempt(&names, &input["bytes"], cpu_limit, secs);
+        if how == "timeout" {
+            let again = attempt(&names, &input["bytes"], 2.0 * cpu_limit, 2 * secs);
+            answers = again.0; end = again.1; how = again.2; death = again.3;
+        }
         // outcome per operation: the operation in progress when the worker went away is ADied, later ones ASkipped
         let mut outs: Vec<String> = Vec::new();
         let mut obs_ops: Vec<Value> = Vec::new();
